@@ -356,9 +356,24 @@ class Processor:
                         ).format(type(parent)), str(yaml_path))
                 return
 
+        target_parent = node_coord.parent
+        target_ref = node_coord.parentref
+        if (isinstance(node_coord.node, (CommentedSet, set))
+                and len(yaml_path.escaped) > 0
+                and node_coord.path is not None
+                and len(node_coord.path.escaped) < len(yaml_path.escaped)):
+            # The path ended in a member this Set lacked, which the optional
+            # match has just added while reporting the Set:  the change is
+            # meant for that member, not for the whole Set.
+            (last_type, last_attr) = yaml_path.escaped[-1]
+            if (last_type is PathSegmentTypes.KEY
+                    and last_attr in node_coord.node):
+                target_parent = node_coord.node
+                target_ref = last_attr
+
         try:
             self._update_node(
-                node_coord.parent, node_coord.parentref, value,
+                target_parent, target_ref, value,
                 value_format, tag)
         except ValueError as vex:
             raise TypeMismatchYAMLPathException(
